@@ -208,7 +208,7 @@ def canonicalize(tree):
                 fix_blocks(owner_fn, st)
             if isinstance(st, ast.Assign) and len(st.targets) == 1 and isinstance(st.value, ast.BinOp) and isinstance(st.value.right, (ast.Constant, ast.JoinedStr)) and \
                     (isinstance(st.targets[0], ast.Name) or (isinstance(st.targets[0], ast.Attribute) and isinstance(st.targets[0].value, ast.Name))) and \
-                    ast.dump(st.value.left).replace("Load()", "X") == ast.dump(st.targets[0]).replace("Store()", "X"):
+                    ast.dump(st.value.left).replace("Load()", "X").replace("Store()", "X") == ast.dump(st.targets[0]).replace("Load()", "X").replace("Store()", "X"):
                 st = ast.copy_location(ast.AugAssign(target=st.targets[0], op=st.value.op, value=st.value.right), st)
             if isinstance(st, ast.Return) and isinstance(st.value, ast.Name) and out and owner_fn is not None:
                 prev = out[-1]
